@@ -33,11 +33,23 @@ def main():
                   if d.is_dir() and (d / 'meta.json').exists())
     if only:
         sids = [s for s in sids if any(s.startswith(o) for o in only)]
-    rows = []
+    # results accumulate in a file so that a run can be resumed
+    store = ROOT / '.regression_results.jsonl'
+    done = {}
+    if store.exists():
+        for line in open(store):
+            r = json.loads(line)
+            done[r[0]] = tuple(r)
+    todo = [s for s in sids if s not in done]
     with concurrent.futures.ThreadPoolExecutor(lanes) as ex:
-        for r in ex.map(job, sids):
-            rows.append(r)
+        for r in ex.map(job, todo):
+            done[r[0]] = r
+            with open(store, 'a') as dst:
+                dst.write(json.dumps(r) + '\n')
             print(r, flush=True)
+    all_sids = sorted(d.name for d in ROOT.iterdir()
+                      if d.is_dir() and (d / 'meta.json').exists())
+    rows = [done[s] for s in all_sids if s in done]
     out = ['# Seeded changes re-run against the final checks (quick tier)',
            '', '| seed | check | exit | violation keys |', '|---|---|---|---|']
     for sid, chk, rc, keys in rows:
